@@ -14,6 +14,7 @@ var Registry = map[string]func(*Ctx){
 	"C04": C04,
 	"C05": C05,
 	"C06": C06,
+	"C07": C07,
 	"C08": C08,
 	"C09": C09,
 	"C10": C10,
